@@ -157,7 +157,7 @@ func harnessC16() {
 	if envSet {
 		vSetenv("COOKIE", envVal)
 	}
-	muxMode := vChoice(3) // 0 unset, 1 "true", 2 some other non-empty value
+	muxMode := vChoice(4) // 0 unset, 1 "true", 2 some other non-empty value, 3 set but empty
 	muxVal := vNondetStr("muxval", "")
 	switch muxMode {
 	case 1:
@@ -165,6 +165,8 @@ func harnessC16() {
 	case 2:
 		vAssume(muxVal != "")
 		vSetenv("PLUGIN_MULTIPLEX_GRPC", muxVal)
+	case 3:
+		vSetenv("PLUGIN_MULTIPLEX_GRPC", "")
 	}
 	if vChoice(2) == 1 {
 		vSetenv("PLUGIN_CLIENT_CERT", "CLIENTCERTPEM")
@@ -190,7 +192,7 @@ func harnessC16() {
 	vAssert(len(stdout) == 1, "C16: exactly one line on stdout")
 	vAssert(len(events) == 2 && events[0] == "listen" && events[1] == "print", "C16: the listener exists before the line is printed")
 	seps := vCountSep(stdout[0], "|")
-	if muxMode == 0 {
+	if muxMode == 0 || muxMode == 3 {
 		vAssert(seps == 5, "C16: six fields when the host did not signal multiplexing")
 	} else {
 		vAssert(seps == 6, "C16: seven fields exactly when the host signalled multiplexing")
